@@ -41,7 +41,14 @@ HEALTH = [("", ""), ("health_checks:\n  active:\n    enabled: true\n    interval
           ("health_checks:\n  active:\n    enabled: true\n    interval: 5\n    timeout: 0\n    path: /h\n", "act=1;ai=5;at=0;ap=/h"),
           ("health_checks:\n  active:\n    enabled: true\n    interval: 5\n    timeout: 1\n", "act=1;ai=5;at=1"),
           ("health_checks:\n  passive:\n    enabled: true\n    unhealthy_threshold: 0\n    unhealthy_timeout: 30\n", "pas=1;pt=0;pto=30"),
-          ("health_checks:\n  passive:\n    enabled: true\n    unhealthy_threshold: 2\n", "pas=1;pt=2")]
+          ("health_checks:\n  passive:\n    enabled: true\n    unhealthy_threshold: 2\n", "pas=1;pt=2"),
+          # valid active section together with an invalid passive one (and the reverse): each
+          # sub-section must be validated whatever the other one says
+          ("health_checks:\n  active:\n    enabled: true\n    interval: 10\n    timeout: 5\n    path: /health\n  passive:\n    enabled: true\n    unhealthy_threshold: 0\n    unhealthy_timeout: 30\n", "act=1;ai=10;at=5;ap=/health;pas=1;pt=0;pto=30"),
+          ("health_checks:\n  active:\n    enabled: true\n    interval: 10\n    timeout: 5\n    path: /health\n  passive:\n    enabled: true\n    unhealthy_threshold: 3\n    unhealthy_timeout: 0\n", "act=1;ai=10;at=5;ap=/health;pas=1;pt=3;pto=0"),
+          ("health_checks:\n  active:\n    enabled: true\n    interval: 10\n    timeout: 5\n    path: /health\n  passive:\n    enabled: true\n    unhealthy_threshold: -1\n    unhealthy_timeout: 30\n", "act=1;ai=10;at=5;ap=/health;pas=1;pt=-1;pto=30"),
+          ("health_checks:\n  active:\n    enabled: true\n    interval: 0\n    timeout: 5\n    path: /health\n  passive:\n    enabled: true\n    unhealthy_threshold: 3\n    unhealthy_timeout: 30\n", "act=1;ai=0;at=5;ap=/health;pas=1;pt=3;pto=30"),
+          ("health_checks:\n  active:\n    enabled: false\n    interval: 0\n  passive:\n    enabled: true\n    unhealthy_threshold: 0\n    unhealthy_timeout: 30\n", "act=0;ai=0;pas=1;pt=0;pto=30")]
 RL = [("", ""), ("rate_limit:\n  enabled: true\n  max_tokens: 100\n  refill_rate_seconds: 1\n", "rl=1;rlm=100;rlr=1"),
       ("rate_limit:\n  enabled: true\n  max_tokens: 0\n  refill_rate_seconds: 1\n", "rl=1;rlm=0;rlr=1"),
       ("rate_limit:\n  enabled: true\n  max_tokens: 5\n", "rl=1;rlm=5"), ("rate_limit:\n  enabled: false\n  max_tokens: -5\n", "rlm=-5")]
@@ -172,7 +179,7 @@ def check(ctx):
     ctx.cov.update({
         "evaluations": len(episodes),
         "distinct_nontrivial": len(nontriv),
-        "rule": "configurations assembled from per-section variants (server 8, timeouts 8, backends 8, load_balancer 11, health 8, rate_limit 5, breaker 9, metrics 5, admin 4, logging 8; each section valid with probability 0.72 so that first-error order matters) plus plugin chains with valid/invalid YAML-typed options; loaded by the real LoadConfig and started in-process; plus the shipped helios.yaml, helios.docker.yaml and every complete README configuration. non-trivial = rejected or failed to start; distinct by verdict and field assignment",
+        "rule": "configurations assembled from per-section variants (server 8, timeouts 8, backends 8, load_balancer 11, health 13, rate_limit 5, breaker 9, metrics 5, admin 4, logging 8; each section valid with probability 0.72 so that first-error order matters) plus plugin chains with valid/invalid YAML-typed options; loaded by the real LoadConfig and started in-process; plus the shipped helios.yaml, helios.docker.yaml and every complete README configuration. non-trivial = rejected or failed to start; distinct by verdict and field assignment",
         "documented_files": [e[0].split()[1] for e in docs],
         "episodes": len(episodes), "traces_validated_against_impl": len(episodes), "verdicts": verdicts,
         "samples": [episodes[len(docs)][0].split(" ", 2)[-1]],
